@@ -1298,3 +1298,65 @@ def c03_write_s390(path, npages=4, ps=4096, arch=2, hdr_size=4096, end_marker=Tr
               ("mvdump", 92, 1, 1), ("cpu_cnt", 93, 2, 1), ("real_cpu_cnt", 95, 2, 1), ("end.str[0]", E, 1, 1), ("end.tod", E + 8, 8, 1)]
     bounds = sorted({0, 97, 0x200, 0x800, hdr_size, E, E + 8, len(img)} | {hdr_size + k * ps for k in range(npages)})
     return dict(fields=fields, bounds=bounds, size=len(img))
+
+
+def s390_cksum32(data, csum=0):
+    """cksum32 of src/kdumpfile/util.c: big-endian 32-bit words added with end-around carry"""
+    n = len(data) // 4 * 4
+    for (w,) in struct.iter_unpack(">I", data[:n]):
+        prev = csum
+        csum = (csum + w) & 0xffffffff
+        if csum < prev:
+            csum = (csum + 1) & 0xffffffff
+    rest = data[n:]
+    if rest:
+        val = 0
+        for b in rest:
+            val = (val >> 8) | (b << 24)
+        prev = csum
+        csum = (csum + val) & 0xffffffff
+        if csum < prev:
+            csum = (csum + 1) & 0xffffffff
+    return csum
+
+
+def c03_write_s390os(path, npages=32, ps=4096):
+    """s390x stand-alone dump whose lowcore points to a valid os_info page (with VMCOREINFO entry and checksums) and to a
+    VMCOREINFO ELF note: what `addrxlat.ostype = linux` parses on s390x.  Returns dict(fields=, bounds=, size=)."""
+    hdr_size = 4096
+    mem = npages * ps
+    h = struct.pack(">QIIIIQQQI4xQQIIIQBHH", 0xa8190173618f23fd, 5, hdr_size, 4, ps, mem, 0, mem, npages,
+                    0x1000, 0, 2, 0, 2, mem, 0, 1, 1)
+    pages = [bytearray(page_bytes(p, ps)) for p in range(npages)]
+    vmci = b"OSRELEASE=5.4.0-s390x\nPAGESIZE=4096\nSYMBOL(swapper_pg_dir)=12000\n"
+    OSI, VMCI, NOTE = 0x10000, 0x2000, 0x3000
+    pages[VMCI // ps][0:len(vmci)] = vmci
+    name = b"VMCOREINFO\0"
+    note = struct.pack(">III", len(name), len(vmci), 0) + name.ljust((len(name) + 3) & ~3, b"\0") + vmci
+    pages[NOTE // ps][0:len(note)] = note
+    lc = pages[0]
+    lc[0xe0c:0xe14] = struct.pack(">Q", NOTE)
+    lc[0xe18:0xe20] = struct.pack(">Q", OSI)
+    osi = bytearray(ps)
+    body = struct.pack(">HHQQ", 1, 6, 0, 0) + struct.pack(">QQI", VMCI, len(vmci), s390_cksum32(vmci)) + struct.pack(">QQI", 0, 0, 0)
+    osi[12:12 + len(body)] = body
+    osi[0:8] = struct.pack(">Q", 0x4f53494e464f535a)
+    osi[8:12] = struct.pack(">I", s390_cksum32(bytes(osi[12:])))
+    pages[OSI // ps][:] = osi
+    img = bytearray(h.ljust(hdr_size, b"\0"))
+    for p in pages:
+        img += p
+    E = len(img)
+    img += b"DUMP_END" + struct.pack(">Q", 0x2000)
+    with open(path, "wb") as f:
+        f.write(img)
+    D = hdr_size
+    fields = [("version", 8, 4, 1), ("hdr_size", 12, 4, 1), ("page_size", 20, 4, 1), ("mem_size", 24, 8, 1), ("mem_end", 40, 8, 1),
+              ("num_pages", 48, 4, 1), ("arch", 72, 4, 1),
+              ("lc.vmcoreinfo", D + 0xe0c, 8, 1), ("lc.os_info", D + 0xe18, 8, 1),
+              ("osi.magic", D + OSI, 8, 1), ("osi.csum", D + OSI + 8, 4, 1), ("osi.version_major", D + OSI + 12, 2, 1),
+              ("osi.e0.addr", D + OSI + 32, 8, 1), ("osi.e0.size", D + OSI + 40, 8, 1), ("osi.e0.csum", D + OSI + 48, 4, 1),
+              ("note.namesz", D + NOTE, 4, 1), ("note.descsz", D + NOTE + 4, 4, 1), ("note.type", D + NOTE + 8, 4, 1),
+              ("note.name[0]", D + NOTE + 12, 1, 1), ("vmci[0]", D + VMCI, 1, 1)]
+    bounds = sorted({0, 97, hdr_size, D + VMCI, D + NOTE, D + OSI, D + OSI + ps, E, E + 8, len(img)})
+    return dict(fields=fields, bounds=bounds, size=len(img))
